@@ -18,7 +18,10 @@ LinkEdits == {"name", "mat_path", "mat_path_backslash", "prod_path", "mat_digest
               "two_alg_sha256", "two_alg_sha512", "two_alg_drop256", "two_alg_drop512",
               \* structure-level near collisions: two members folded into one whose NAME spells the
               \* boundary, two array elements folded into one whose content spells the boundary
-              "env_fold", "byp_fold", "command_fold", "paths_fold"}
+              "env_fold", "byp_fold", "command_fold", "paths_fold",
+              \* a character beyond U+00FF exchanged for the ASCII character with the same low byte (U+0141 / A,
+              \* U+4E42 / B, U+1F643 / C), in a string value and in a member name
+              "high_twin_value", "high_twin_key", "high_twin_astral"}
 \* expires_plus_year / _day: applied by the harness at every date class (mid-year, 29 Dec .. 3 Jan of
 \* several years, leap day, month ends) - "expiry to the second" must hold at every calendar position
 LayoutEdits == {"readme", "expires_plus1", "expires_minus1", "expires_plus_year", "expires_plus_day", "pubkeys_case", "step_name", "step_threshold", "step_threshold_zero", "step_threshold_one_to_zero", "match_empty_src", "match_empty_dst",
@@ -26,7 +29,7 @@ LayoutEdits == {"readme", "expires_plus1", "expires_minus1", "expires_plus_year"
                 "rule_add", "rule_remove", "rule_swap", "match_src", "match_dst", "match_drop_src", "match_with",
                 "match_from", "match_with_dstonly", "match_with_srconly", "match_with_bare", "insp_name", "insp_run", "insp_rule", "keys_add", "keys_remove",
                 "key_entry_scheme", "key_entry_public", "key_entry_halgs", "key_entry_type", "steps_swap",
-                "inspect_swap", "inspect_remove"}
+                "inspect_swap", "inspect_remove", "high_twin_value", "high_twin_astral"}
 
 CJ == INSTANCE CJson
 NearAlpha == {"B", "Q", "n", "N", "E", "A"}
